@@ -75,6 +75,22 @@ func runC14(c *Ctx) {
 			}
 			c.check(v == ssa.Value(join.Params[1]), "C14.hostport.tables", join, "the formatted number is the port", ci, "port -> text")
 		}
+		// strconv.Itoa / FormatInt(_, 10) are decimal writers too
+		for _, ci := range core.CallsTo(join, "strconv.Itoa", "strconv.FormatInt") {
+			fbase = 10
+			if core.CalleeName(ci.Common()) == "strconv.FormatInt" {
+				fbase, _ = core.ConstInt(ci.Common().Args[1])
+			}
+			v := ci.Common().Args[0]
+			for {
+				cv, ok := v.(*ssa.Convert)
+				if !ok {
+					break
+				}
+				v = cv.X
+			}
+			c.check(v == ssa.Value(join.Params[1]), "C14.hostport.tables", join, "the formatted number is the port", ci, "port -> text")
+		}
 		var pu *ssa.Call
 		for _, ci := range core.CallsTo(split, "strconv.ParseUint") {
 			pu = ci.(*ssa.Call)
